@@ -37,7 +37,7 @@
       longer memoised on its own). *)
 From Coq Require Import List ZArith Bool Arith.
 Import ListNotations.
-From TI Require Import lib.Sched model.Caches proofs.CachesProofs proofs.MemoProofs.
+From TI Require Import lib.Sched model.Caches proofs.CachesProofs proofs.MemoProofs proofs.SwapProofs.
 
 (** the cell size returned after any history is the fresh one for the current terminal
     size and swap setting, under the query status in force when the entry was made *)
@@ -248,7 +248,9 @@ Proof. exact trace_eq_spec. Qed.
 Print Assumptions C15_trace_is_specification.
 
 (** the [cached] decorator under concurrency: for every body behaviour [bv] (each
-    execution returns a value or RAISES), every
+    execution returns a result — which may be Python's [None]: results are [mres =
+    option Z], a cache entry holding [None] is [Some None], an absent one [None] — or
+    RAISES), every
     assignment of programs (calls with any argument tuples, invalidations) to any number
     of threads, every reachable state — hence every schedule — the body has run TO
     COMPLETION at most once per argument tuple since the last [cache.clear()] *)
@@ -284,3 +286,98 @@ Theorem C15_memo_raise_stores_nothing :
     m_cache s' = m_cache s /\ m_calls s' = m_calls s /\ m_pc (m_th s' t) = PRelease None.
 Proof. exact memo_raise_stores_nothing_lemma. Qed.
 Print Assumptions C15_memo_raise_stores_nothing.
+
+(** ** results that are Python's [None]
+
+    a lookup that finds an entry — WHATEVER it holds, [None] included — does not run the
+    body and returns the entry's content *)
+Theorem C15_memo_hit_runs_no_body :
+  forall bv s t k r s',
+    m_pc (m_th s t) = PLookup k -> m_cache s k = Some r -> mstep bv s t = Some s' ->
+    m_total s' = m_total s /\ m_calls s' = m_calls s /\ m_cache s' = m_cache s
+    /\ m_pc (m_th s' t) = PRelease (Some (k, r)).
+Proof. exact memo_hit_runs_no_body_lemma. Qed.
+Print Assumptions C15_memo_hit_runs_no_body.
+
+(** once a call with an argument tuple has returned in the current epoch — whatever it
+    returned — the entry is there, in every reachable state of any thread system *)
+Theorem C15_memo_returned_is_cached :
+  forall bv prog s t k r,
+    reachable (mstep bv) (minit prog) s ->
+    In (m_invals s, k, r) (m_rets (m_th s t)) -> m_cache s k = Some r.
+Proof. exact memo_returned_is_cached_lemma. Qed.
+Print Assumptions C15_memo_returned_is_cached.
+
+(** sequential use: for EVERY history of calls and invalidations executed by one thread
+    and EVERY body (bodies returning [None] for some or all argument tuples included),
+    the body has run to completion at most once per argument tuple since the last
+    invalidation *)
+Theorem C15_memo_seq_body_once :
+  forall bv cmds k, (m_calls (mseq bv cmds) k <= 1)%nat.
+Proof. exact memo_seq_body_once_lemma. Qed.
+Print Assumptions C15_memo_seq_body_once.
+
+(** ... and an argument tuple for which [None] was returned in the current epoch has its
+    entry (holding [None]) *)
+Theorem C15_memo_none_result_cached :
+  forall bv cmds k,
+    In (m_invals (mseq bv cmds), k, None) (m_rets (m_th (mseq bv cmds) 0)) ->
+    m_cache (mseq bv cmds) k = Some None /\ (m_calls (mseq bv cmds) k <= 1)%nat.
+Proof. exact memo_seq_none_result_cached_lemma. Qed.
+Print Assumptions C15_memo_none_result_cached.
+
+(** the variant of the wrapper with [None] as its "not cached yet" sentinel refutes it,
+    sequentially: two runs of the body for one argument tuple within one epoch, the
+    returned values being those of the real wrapper *)
+Theorem C15_memo_body_once_refuted_by_none_sentinel :
+  exists bv cmds k,
+    m_calls (mseq_gen true bv cmds) k = 2%nat /\ m_invals (mseq_gen true bv cmds) = 0%nat
+    /\ m_rets (m_th (mseq_gen true bv cmds) 0) = m_rets (m_th (mseq bv cmds) 0)
+    /\ m_calls (mseq bv cmds) k = 1%nat.
+Proof. exact memo_body_once_refuted_by_none_sentinel. Qed.
+Print Assumptions C15_memo_body_once_refuted_by_none_sentinel.
+
+(** ** the win-size-swap toggles against concurrent [get_cell_size] calls
+    (model/Caches.v part 4: any number of threads running programs of toggles and
+    [get_cell_size] calls; micro-steps test / flag write / acquire / clear / release and
+    acquire / lookup / flag read / cache write / release)
+
+    at most one thread is inside the region protected by [_cell_size_lock] *)
+Theorem C15_swap_mutex :
+  forall f0 warm prog s t1 t2,
+    reachable wstep (w_start f0 warm prog) s -> w_inside s t1 -> w_inside s t2 -> t1 = t2.
+Proof. exact swap_mutex_lemma. Qed.
+Print Assumptions C15_swap_mutex.
+
+(** in every reachable state — hence under every schedule — in which no toggle is between
+    its flag write and its clear (in particular once all toggles have returned):
+    [get_cell_size()] answers with the value computed under the CURRENT flag, the cache
+    is empty or holds that value, and every [get_cell_size] in flight is about to store /
+    return that value *)
+Theorem C15_swap_toggle_fresh :
+  forall f0 warm prog s,
+    reachable wstep (w_start f0 warm prog) s ->
+    (forall u, ~ w_pending s u) ->
+    w_answer s = w_flag s
+    /\ (w_cache s = None \/ w_cache s = Some (w_flag s))
+    /\ (forall t f, w_holds s t f -> f = w_flag s).
+Proof. exact swap_toggle_fresh_lemma. Qed.
+Print Assumptions C15_swap_toggle_fresh.
+
+Theorem C15_swap_toggle_fresh_schedules :
+  forall f0 warm prog sch,
+    let s := run_sched wstep (w_start f0 warm prog) sch in
+    (forall u, ~ w_pending s u) -> w_answer s = w_flag s.
+Proof. exact swap_toggle_fresh_schedules. Qed.
+Print Assumptions C15_swap_toggle_fresh_schedules.
+
+(** the variant that writes the flag AFTER the lock region (clear first, then switch)
+    admits a schedule after which both threads have finished, the flag is the new one
+    and the cache holds the value computed under the old one *)
+Theorem C15_swap_toggle_refuted_late_flag :
+  exists f0 warm prog sch,
+    let s := run_sched (wstep_gen true) (w_start f0 warm prog) sch in
+    (forall t, (t < 2)%nat -> w_pc (w_th s t) = WIdle /\ w_todo (w_th s t) = [])
+    /\ w_flag s = true /\ w_cache s = Some false /\ w_answer s <> w_flag s.
+Proof. exact swap_toggle_refuted_late_flag. Qed.
+Print Assumptions C15_swap_toggle_refuted_late_flag.
